@@ -138,11 +138,41 @@ def make_wrapper(
             This means that those changes can be reverted from this point out.
             """
             self._configurable.commit()
-            object.__setattr__(self, "_reuse_pt", 0)
+            # the generation only ever grows: going back to 0 would make values
+            # cached under an earlier generation 0 look current again
+            object.__setattr__(self, "_reuse_pt", self._reuse_pt + 1)
 
         def changes_count(self):
             """current commit point for the configurable"""
             return self._configurable.changes_count()
+
+        def _request_configurable(self, enable, vals):
+            """enable (or disable) every flag of vals, or change nothing
+
+            :return: True if all of vals now are in the requested state; False,
+                with the configurable left as it was, if a flag is locked against it
+            """
+            flags = self._configurable
+            change = flags.add if enable else flags.remove
+            entry_point = self.changes_count()
+            # Flags that have to flip go first: only those can be refused, and
+            # they're refused before anything gets recorded.  A flag already in
+            # the requested state is merely pinned, but LimitedChangeSet records
+            # that like a real change and its rollback inverts it (dropping a flag
+            # that was set, setting one that wasn't), so no pin may precede a refusal.
+            vals = sorted(vals, key=lambda x: (x in flags) == enable)
+            try:
+                for x in vals:
+                    try:
+                        change(x)
+                    except KeyError:
+                        # disabling a flag that is off and locked, or pinned already
+                        pass
+            except Unchangable:
+                self.rollback(entry_point)
+                return False
+            object.__setattr__(self, "_reuse_pt", self._reuse_pt + 1)
+            return True
 
         def request_enable(self, attr, *vals):
             """internal function
@@ -159,13 +189,7 @@ def make_wrapper(
             """
             if attr not in self._wrapped_attr:
                 if attr == self._configurable_name:
-                    entry_point = self.changes_count()
-                    try:
-                        list(map(self._configurable.add, vals))
-                        object.__setattr__(self, "_reuse_pt", self._reuse_pt + 1)
-                        return True
-                    except Unchangable:
-                        self.rollback(entry_point)
+                    return self._request_configurable(True, vals)
                 else:
                     a = getattr(self._raw_pkg, attr)
                     for x in vals:
@@ -205,12 +229,7 @@ def make_wrapper(
             """
             if attr not in self._wrapped_attr:
                 if attr == self._configurable_name:
-                    entry_point = self.changes_count()
-                    try:
-                        list(map(self._configurable.remove, vals))
-                        return True
-                    except Unchangable:
-                        self.rollback(entry_point)
+                    return self._request_configurable(False, vals)
                 else:
                     a = getattr(self._raw_pkg, attr)
                     for x in vals:
